@@ -1,5 +1,5 @@
 SPECIFICATION Spec
-CONSTANT NK = 24
+CONSTANTS NK = 24 CheckProto = TRUE
 VIEW View
 POSTCONDITION Report
 CHECK_DEADLOCK FALSE
